@@ -1194,6 +1194,22 @@ BENCH_VALUES = [
 ]
 
 
+def random_finite(rng):
+    """Any finite double (random bit pattern: all magnitudes incl. subnormals), or a decimal
+    with 17 significant digits, or a large int."""
+    import struct
+
+    r = rng.random()
+    if r < 0.5:
+        while True:
+            x = struct.unpack("<d", struct.pack("<Q", rng.getrandbits(64)))[0]
+            if x == x and abs(x) != float("inf"):
+                return x
+    if r < 0.8:
+        return float("%.17g" % (rng.uniform(-100, 100) * 10.0 ** rng.randint(-30, 30)))
+    return rng.choice([-1, 1]) * rng.getrandbits(rng.randint(1, 52))
+
+
 class StoreDriver:
     """Twin leagues: A keeps its objects, B is restarted / crashed; only the store survives (C20)."""
 
@@ -1220,7 +1236,10 @@ class StoreDriver:
             self.pending = gen_population(rng, ctx.cfg, p["players"], p["population"])
             if p["bench"]:
                 for k in range(rng.randint(1, 5)):
-                    mu, sg = rng.choice(BENCH_VALUES)
+                    if rng.random() < 0.4:
+                        mu, sg = random_finite(rng), random_finite(rng)
+                    else:
+                        mu, sg = rng.choice(BENCH_VALUES)
                     self.pending.append({"op": "NEW", "name": "b%d" % k, "mu": enc(mu), "sigma": enc(sg), "bench": True})
             self.pending.append({"op": "NEW", "name": "d0"})
             self.pending.append({"op": "NEW", "name": "d1", "mu": enc(rng.choice([0, 0.0, -1.5])), "sigma_omitted": True})
